@@ -40,7 +40,7 @@ CHECKS["C14"] = (
 CHECKS["C18"] = (
     "DESIGN.md §2 C18",
     "Coq proof over R (two-hot coding via a unique-strict-minimum characterisation of the masked arg-min on strictly increasing bins; Huber piecewise form; masked MSE through an explicit NumPy-broadcasting tensor calculus; avg-L1 norm; linear schedule) + float correspondence with the JAX functions",
-    "Theorems: two-hot rows for any in-range value (edges included) are non-negative, sum to one, have at most two adjacent non-zero entries and decode to the value; symexp bins are strictly increasing; log-softmax is the log of the softmax; Huber = 0.5e^2 / delta(|e|-0.5delta); masked rows of 2-D predictions have zero weight (closed form), with the 1-D (N,N) broadcast kept visible as a refuted statement; avg-L1 output has mean |.| = 1 (finite near zero); schedule length, monotonicity, start value and constant tail. Polymorphic kernels are extracted and compared with the implementation on every run.",
+    "Theorems: two-hot rows for any in-range value (edges included) are non-negative, sum to one, have at most two adjacent non-zero entries and decode to the value; symexp bins are strictly increasing; log-softmax is the log of the softmax; Huber = 0.5e^2 / delta(|e|-0.5delta); masked rows of 2-D and 1-D predictions have zero weight (closed forms); avg-L1 output has mean |.| = 1 (finite near zero); schedule length, monotonicity, start value and constant tail. Polymorphic kernels are extracted and compared with the implementation on every run.",
     "Trusts: Coq kernel + standard-library real-number axioms (Print Assumptions); extraction, OCaml glue (float64 libm), harness; float32-vs-float64 tolerances as stated in the evidence. Hypothesis of the two-hot theorem: bin range below the code's 1e8 offset (true for the default exponents +-10).",
 )
 CHECKS["C07"] = (
@@ -48,6 +48,12 @@ CHECKS["C07"] = (
     "Coq proof over R (recurrences of reward-to-go, GAE and n-step return with residual discount; causality as suffix-independence plus a cut lemma at terminated steps; per-environment structure of the A2C and PPO batch preparations) + correspondence and metamorphic perturbation runs against the JAX functions",
     "Theorems for all sequences, gamma, lambda and termination patterns: the estimators satisfy their defining recurrences; an estimate at time t is unchanged by any change before t or after the first terminated step at or after t; A2C and PPO estimates of one environment depend on that environment's column only (the single flat GAE formerly used by PPO is kept as a refuted statement). Extracted kernels are compared with compute_gae, discounted_n_step_return, discounted_reward_to_go, prepare_a2c_batch and the advantages inside the real update_ppo on every run, together with perturbation re-runs of the implementation.",
     "Trusts: Coq kernel + standard-library real-number axioms; extraction, OCaml glue, harness; jax.lax.scan / vmap as executed; float32 rounding handled by a 2^-18 relative tolerance. The MR.Q critic target and encoder-loss masks named by C07 are covered by the C03 check.",
+)
+CHECKS["C03"] = (
+    "DESIGN.md §2 C03",
+    "Coq proof over R on an explicit NumPy-broadcasting tensor calculus (per-sample closed forms of the TD losses for all batch sizes, batch-size-1 behaviour, terminated rows, permutation invariance) and on dual numbers (stop_gradient cuts the tangent: target networks / bootstrap inputs get zero gradient) + correspondence with every loss function on stub and small real networks",
+    "Theorems: DDPG, TD3, SAC, DQN/Nature-DQN and double-DQN losses equal the mean squared regression of the online estimate onto y = r + (1-terminated) gamma bootstrap with the documented bootstrap, per sample, for every batch size >= 2 (TD3/SAC/double-Q forms also for N = 1; DDPG rejects N = 1 by its shape assertion); terminated transitions contribute no bootstrap; batch-order invariance; gradients w.r.t. target networks, target policies and bootstrap inputs are exactly zero (dual-number statement for TD3, DDPG, TD3+LAP, DQN, DDQN, SALE). TD3+LAP, TD7, MR.Q, PER-DDQN and the model-based encoder loss are tied by correspondence and by the documented-formula oracle (networks evaluated by the harness on the documented inputs).",
+    "Trusts: Coq kernel + standard-library real-number axioms; extraction, OCaml glue, harness; network forward passes are oracles; JAX autodiff is trusted to differentiate the traced program (the dual model checks what is differentiated); float32 tolerance 2e-5. The encoder loss has no Coq model of its own: it is checked against the documented row-masked sums only.",
 )
 _PENDING = "check not built yet in this revision (planned: Coq model + correspondence, see DESIGN.md §2)"
 NOT_APPLICABLE = {f"C{i:02d}": _PENDING for i in range(1, 21) if f"C{i:02d}" not in CHECKS}
